@@ -87,9 +87,19 @@ class Roles:
                 faithful.append((cb, owned))
             else:
                 self.lossy_conversions.append(cb.key)
-        if len(faithful) != 1:
-            raise Inconclusive("conversion Evaluated → Value not identified (%d faithful candidates of %d)" % (len(faithful), len(conv)))
-        self.conv, self.owned_variant = faithful[0]
+        self.conv_faithful = True
+        if len(faithful) == 1:
+            self.conv, self.owned_variant = faithful[0]
+        else:
+            # no faithful candidate: the trait conversion `From<Evaluated> for Value` keeps the role, marked unfaithful —
+            # the clauses that rely on "the result is the evaluated value itself" (C02 K3, C14 K2) report it
+            trait = [cb for cb in conv if "::{impl#" in cb.key and cb.key.endswith("::from")]
+            if len(faithful) == 0 and len(trait) == 1:
+                self.conv, self.owned_variant = trait[0], None
+                self.conv_faithful = False
+                self.lossy_conversions = [k for k in self.lossy_conversions if k != trait[0].key]
+            else:
+                raise Inconclusive("conversion Evaluated → Value not identified (%d faithful candidates of %d)" % (len(faithful), len(conv)))
         # sink functions: parameter positions that must only ever receive rule text
         self.sinks = {self.entry.key: [1], self.value_parser.key: [1], self.disp.body.key: [self.disp.value_arg]}
         for k in self.parsers:
